@@ -638,6 +638,10 @@ class Exec:
                 raise Unsupported('symbolic string ordering')
             raise Unsupported('string op ' + op)
         if kx == 'float':
+            if isinstance(x, Opaque) or isinstance(y, Opaque):
+                if op in ('+', '-', '*', '/'):
+                    return Opaque('float arithmetic on opaque value')
+                raise Unsupported('comparison of opaque floats')
             if isinstance(x, z3.ExprRef) or isinstance(y, z3.ExprRef):
                 raise Unsupported('symbolic float')
             if op == '+':
@@ -879,7 +883,7 @@ class Exec:
             return z3.SignExt(wt - wf, x) if T.signed(xt) else z3.ZeroExt(wt - wf, x)
         if kf == 'int' and kt == 'float':
             if isinstance(x, z3.ExprRef):
-                raise Unsupported('symbolic int -> float')
+                return Opaque('float of symbolic int')   # only ever formatted into log messages
             return float(sval(x, T.width(xt)) if T.signed(xt) else x)
         if kf == 'float' and kt == 'int':
             return mask(int(x), T.width(t))
